@@ -125,8 +125,8 @@ def run(ctx) -> None:
     fake_nodes = match.nodes_calling(cfg, lambda c: last_attr(c) == "_fake_finish_with_state")
     ctx.floor("C01.R2-guard-dominates-ready", len(ready_nodes), 1, "ready.append sites in _schedule")
 
-    dep_tests = match.test_nodes(cfg, lambda t: match.polarity(
-        t, lambda e: isinstance(e, ast.Call) and last_attr(e) == "_input_dependencies_satisfied"))
+    dep_tests = match.test_nodes(cfg, lambda t: match.polarity_through_locals(
+        sched, t, lambda e: isinstance(e, ast.Call) and last_attr(e) == "_input_dependencies_satisfied"))
     staged_tests = match.test_nodes(cfg, lambda t: _membership(t, "comp_staged_in"))
     done_tests = match.test_nodes(cfg, lambda t: _state_in_done(t, sched))
     for rn in ready_nodes:
